@@ -368,6 +368,8 @@ def build_all(ctx, pairs, jobs=6):
 def run_cfg(exe, g, cfg, timeout_ms=20000):
     """cfg = dict(sched, threads, iter, chunk, again=(seed, pct, maxk)|None, spin=bool)"""
     env = {'PARSEC_MCA_task_startup_iter': str(cfg['iter']), 'PARSEC_MCA_task_startup_chunk': str(cfg['chunk'])}
+    if not cfg.get('teardown'):
+        env['PTG_FAST_EXIT'] = '1'
     if cfg.get('again'):
         env['PTG_AGAIN'] = '%d,%d,%d' % tuple(cfg['again'])
     if cfg.get('spin'):
@@ -478,3 +480,186 @@ def model_valid(prog, g, cfg=None):
     d = {w[i]: w[i + 1] == 'true' for i in range(0, len(w), 2)}
     d['graph'] = out[3]
     return d
+
+
+# ------------------------------------------------------------------ sweeps (shared by checks/C02.py and checks/C16.py)
+def has_derived_param(p):
+    return any(l['kind'] == 'D' and l['param'] for c in p.classes for l in c['locals'])
+
+
+def prepare(ctx, res, prop, progs, quick):
+    """Lean-side validity of every (program, globals) + builds.  Returns [(prog, g, backend, exe)] and statistics."""
+    import time
+    t0 = time.time()
+    pv.mpi_flags()          # fill the (thread-unsafe) cache before the pool starts
+    pairs = [(p, b) for p in progs for b in pvptg.BACKENDS if b == pvptg.BACKENDS[0] or not has_derived_param(p)]
+    built = build_all(ctx, pairs)
+    pv.log('[%s] %d builds (%d cached) in %.1fs' % (prop, len(built), sum(1 for v in built.values() if v[1] == 'cached'), time.time() - t0))
+    t0 = time.time()
+    stats = {'valid': 0, 'invalid': 0, 'built': sum(1 for v in built.values() if v[1] == 'built'), 'cached': sum(1 for v in built.values() if v[1] == 'cached')}
+    items = []
+    for p in progs:
+        gv = p.gvecs[:2] if quick else p.gvecs
+        for g in gv:
+            try:
+                mv = model_valid(p, g)
+                pyp = py_valid(p, g)
+            except Exception as e:
+                res.infra_errors.append('validity analysis of %s %s raised %r' % (p.name, g, e))
+                continue
+            ok = mv['wf'] and mv['racefree'] and mv['asyncsafe'] and mv['singlesrc'] and mv.get('named', True)
+            if ok and pyp:
+                res.disagreements.append({'op': 'valid', 'impl': 'independent analysis: ' + pyp[0], 'model': 'hypotheses of the theorems hold: %s' % mv,
+                                          'case': json.loads(p.to_case({'gvecs': [list(g)]}))})
+            if not ok and not pyp:
+                # the generator only keeps programs its own analysis accepts: the Lean hypotheses must agree
+                res.disagreements.append({'op': 'valid', 'impl': 'independent analysis accepts the program', 'model': str(mv),
+                                          'case': json.loads(p.to_case({'gvecs': [list(g)]}))})
+            stats['valid' if ok else 'invalid'] += 1
+            if not ok:
+                continue
+            for (pp, b) in pairs:
+                if pp is p:
+                    exe, log = built[(p.name, b)]
+                    if exe is None:
+                        res.infra_errors.append('program %s does not build with %s: %s' % (p.name, b, log[-600:]))
+                    else:
+                        items.append((p, g, b, exe))
+    pv.log('[%s] validity of %d (program, globals) pairs in %.1fs' % (prop, stats['valid'] + stats['invalid'], time.time() - t0))
+    return items, stats
+
+
+def run_one(prog, g, exe, cfg, evaluate):
+    """one run of a compiled program + evaluation.  {'n', 'fails', 'dis', 'crash', 'oneoff', 'stats'}"""
+    r = {'n': 0, 'fails': [], 'dis': [], 'crash': None, 'oneoff': None, 'stats': {}}
+    rc, out, err = run_cfg(exe, g, cfg)
+    if rc not in (0, 3) or not out.strip():
+        msg = 'exit %s: %s' % (rc, err[-400:])
+        again, tries = 0, 5
+        for _ in range(tries):
+            rc2, out2, err2 = run_cfg(exe, g, cfg)
+            if rc2 not in (0, 3):
+                again += 1
+                break
+        log = os.path.join(os.path.dirname(exe), 'crash-%s-%s.stderr' % (cfg['sched'], cfg['threads']))
+        try:
+            open(log, 'w').write(err)
+        except OSError:
+            pass
+        if again:
+            r['crash'] = msg + ' [reproduced]'
+        else:
+            r['oneoff'] = 'rc=%s cfg=%s not reproduced in %d re-runs; stderr in %s: %s' % (rc, cfg, tries, log, err[-200:])
+        return r
+    tr = parse_events(out)
+    r['n'] = len(tr['events']) + 2
+    try:
+        evaluate(prog, g, cfg, tr, r)
+    except Exception:
+        import traceback
+        r['dis'].append({'op': 'evaluate', 'impl': 'transcript of %d events' % len(tr['events']), 'model': 'evaluation raised: ' + traceback.format_exc()[-600:]})
+    return r
+
+
+def sweep(ctx, res, prop, work, evaluate, workers=5, stop_after=6):
+    """work = [(prog, g, backend, exe, cfg)].  Fills res; returns the list of (work item, result)."""
+    import time
+    t0 = time.time()
+    results, bad = [], 0
+    with concurrent.futures.ThreadPoolExecutor(max_workers=workers) as ex:
+        futs = [ex.submit(run_one, p, g, exe, cfg, evaluate) for (p, g, b, exe, cfg) in work]
+        for w, f in zip(work, futs):
+            if bad >= stop_after:
+                f.cancel(); continue
+            try:
+                r = f.result()
+            except concurrent.futures.CancelledError:
+                continue
+            except Exception as e:
+                res.infra_errors.append('run %s %s raised %r' % (w[0].name, w[4], e)); continue
+            results.append((w, r))
+            bad += bool(r['crash'] or r['fails'] or r['dis'])
+    pv.log('[%s] %d runs in %.1fs' % (prop, len(results), time.time() - t0))
+    hist = {'sched': {}, 'threads': {}, 'chunk': {}, 'backend': {}, 'again': {}}
+    for (p, g, b, exe, cfg), r in results:
+        res.evaluations += r['n']
+        case = json.loads(p.to_case({'gvecs': [list(g)], 'config': cfg, 'backend': b}))
+        for k, v in (('sched', cfg['sched']), ('threads', cfg['threads']), ('chunk', '%d/%d' % (cfg['iter'], cfg['chunk'])), ('backend', b),
+                     ('again', 'on' if cfg.get('again') else 'off')):
+            hist[k][str(v)] = hist[k].get(str(v), 0) + 1
+        if r['oneoff']:
+            res.extra.setdefault('unreproduced_crashes', []).append({'program': p.ser(g)[:200], 'what': r['oneoff']})
+            res.notes.append('one unreproduced crash of a generated program (see coverage.unreproduced_crashes)')
+            continue
+        if r['crash']:
+            res.violations.append({'key': 'crash:%s' % p.ser(g)[:300], 'what': 'generated program crashed: ' + r['crash'], 'case': case})
+            continue
+        for d in r['dis'][:3]:
+            d = dict(d); d['case'] = case
+            res.disagreements.append(d)
+        if r['fails']:
+            res.violations.append({'key': '%s:%s:%s' % (prop, json.dumps(cfg, sort_keys=True), p.ser(g)[:300]), 'what': r['fails'][0],
+                                   'all_failures': r['fails'][:5], 'case': case})
+        if not r['dis'] and not r['fails']:
+            res.traces_validated += 1
+        if r['n'] > 8:
+            res.nontrivial('%s|%s|%s' % (p.ser(g), b, json.dumps(cfg, sort_keys=True)))
+        for k, v in r['stats'].items():
+            res.extra.setdefault('run_stats', {})
+            res.extra['run_stats'][k] = res.extra['run_stats'].get(k, 0) + v
+    res.extra.setdefault('input_distribution', {})['configurations'] = hist
+    return results
+
+
+def cases_from_replay(data):
+    """[(program, config or None, backend or None)] from a replay file written by the framework"""
+    out = []
+    for v in data.get('violations', []) + data.get('disagreements', []):
+        if 'case' in v:
+            p = ptg_gen.Program.from_case(v['case'])
+            p.name = 'r%d' % len(out)
+            out.append((p, v['case'].get('config'), v['case'].get('backend')))
+    return out
+
+
+# ------------------------------------------------------------------ oracles on a trace (independent of the Lean model)
+def oracle_basic(prog, g, tr):
+    """every declared instance ended exactly once, nothing else ran, announced count, completion"""
+    fails = []
+    decl = set(instances(prog, g))
+    ended = {}
+    for (k, c, env, th, vals) in tr['events']:
+        if k == 'E':
+            ended[(c, env)] = ended.get((c, env), 0) + 1
+        if (c, env) not in decl:
+            fails.append('an instance outside the declared space ran: class %d locals %s' % (c, list(env)))
+            break
+    for t in decl:
+        if ended.get(t, 0) != 1:
+            fails.append('%s completed %d time(s)' % (ptg_gen.inst_name(prog, *t), ended.get(t, 0)))
+            break
+    if tr['count'] is not None and tr['count'] != len(decl):
+        fails.append('announced %s local tasks, the declared space has %d' % (tr['count'], len(decl)))
+    if tr['end'] != 'complete':
+        fails.append('taskpool did not complete: %s' % tr['end'])
+    return fails
+
+
+def oracle_order(prog, g, tr):
+    """a task begins only after every producer it names has ended"""
+    fails = []
+    bp = by_params(prog, g)
+    endpos = {}
+    for i, (k, c, env, th, vals) in enumerate(tr['events']):
+        if k == 'E':
+            endpos.setdefault((c, env), i)
+    for i, (k, c, env, th, vals) in enumerate(tr['events']):
+        if k != 'B':
+            continue
+        for (pc, pp) in ptg_gen.declared_preds(prog, g, c, env):
+            e = bp.get((pc, pp))
+            ei = endpos.get((pc, e))
+            if ei is None or ei > i:
+                fails.append('%s began before its producer %s%s ended' % (ptg_gen.inst_name(prog, c, env), prog.classes[pc]['name'], list(pp)))
+                return fails
+    return fails
